@@ -156,7 +156,7 @@ def _c12_nonlocal_class(v):
 def _c12_async_genexp(v):
     d, msg, mech, ver = _c12(v)
     return msg in ('asynchronous comprehension outside of an asynchronous function', "'await' outside async function") \
-        and mech.get('genexp') is True and ver >= (3, 7)
+        and mech.get('genexp') is True and ver >= (3, 7) and mech.get('innermost_comprehension') == 'list_set_dict'
 
 
 @classifier('c12_fstring_backslash_312')
